@@ -30,7 +30,7 @@ checks = [
         "grammar half (wirelab): all strings up to length 5 (6) over a 14-character alphabet, all /ns/tp at the length and reserved-word boundaries and component pairs through the server-side rule, compared with a hand-written character-loop reference; server half (e2elab): 34 boundary names sent on the wire by a raw peer in all roles against the real server (Ok iff the reference accepts, invalid-topic error otherwise) and 6 pairs of near-identical valid names checked for traffic isolation",
         W_NOTE + "; server half: scheduling not controlled, quiet windows for absence", "bounded-exhaustive input enumeration against a reference grammar, plus an exhaustive name/role matrix over the real server", "DESIGN.md §4 C07, §5 C07"),
     chk("C13", "wirelab", "exploration",
-        "full grid of strategies x steps x factors x attempt counts x maximum delays; every schedule is drained under catch_unwind with overflow checks enabled and compared item by item with the law evaluated in saturating u128 nanoseconds",
+        "full grid of strategies x steps x factors x attempt counts x maximum delays; every schedule is drained under catch_unwind with overflow checks enabled and compared item by item with the law evaluated in saturating u128 nanoseconds; thorough also walks three schedules of u32::MAX attempts to their very end",
         W_NOTE, "exhaustive enumeration of a finite configuration grid against a reference law", "DESIGN.md §4 C13"),
     chk("C14", "wirelab", "exploration",
         "identity oracle over the full grid of compression algorithm x mode x level x content class x size up to 1 MiB, all short strings / byte strings for the codecs, an independent UTF-8 validator for error-iff-invalid, and the wire composition encode->batch->compress->decompress->unbatch->decode",
@@ -48,16 +48,16 @@ checks += [
     chk("C09", "routerlab", "model_checking", rtext("all no-fault families of C01/C02/C10/C16 plus one-sided topologies (nobody, only subscribers, only publishers, only repliers, only requestors, replier leaves)") + "; oracles: step budget per poll (spin), 400-poll horizon (self-wake livelock), and a probe poll at every quiescent point that must make no observable progress (lost wake-up)", R_NOTE, R_TECH, "DESIGN.md §3 C09"),
     chk("C10", "routerlab+e2elab", "model_checking", rtext("1-3 repliers registering at every point of an exchange, departures of the bound one, pending/wake of the rejected replier's sink, two late repliers in one poll") + "; oracle: never two bound, a rejection is justified by an earlier still-bound replier and consists of exactly one replier-already-bound error followed by a completed close, a replier registering after the bound one ended is bound and served", R_NOTE + "; server half (e2elab): a real second replier - opened from the same client as the bound one or from another, with or without a retry budget - keeps registering while 30 requests must all be answered by the bound one; a raw rival whose stream grants 9..1024 bytes of credit must be told Ok, replier-already-bound and then see its stream end", R_TECH + " + rival matrix over the real server and client", "DESIGN.md §3 C10, §5 C10"),
     chk("C11", "routerlab+e2elab", "model_checking", rtext("every non-Message frame kind as 1st/2nd request or as a reply, requests that fit the frame limit only before the routing tag is added, all 8 kinds through the pub/sub router, each followed by a well-formed exchange") + "; oracle: no panic and the following exchange satisfies C01/C02", R_NOTE + "; server half (e2elab): first frame of every kind x topic state {fresh, pub/sub, req/rep} must be served (exercised with helper peers) or refused with an error code, follow-up frames of every kind per role, and the real client's open() against a fake server answering with every frame kind or closing; scheduling there is not controlled", R_TECH + " + exhaustive hostile-input matrix over the real server", "DESIGN.md §3 C11, §5 C11"),
-    chk("C16", "routerlab+e2elab", "model_checking", rtext("close of the registration channel at every point of the pub/sub and req/rep families (idle, item buffered, flush pending, one side only, rejected replier pending) followed by every pending/wake outcome of the sinks") + "; oracle: the router future completes once every sink can accept data, and every frame taken from a publisher was handed over and flushed to every healthy subscriber first", R_NOTE + "; server half (e2elab): the real server in a child process is brought into 12 states by raw peers (incl. a registration parked on a peer that grants no flow-control credit), receives SIGINT and must exit with status 0 within 20 s", R_TECH + " + state matrix with SIGINT on the real server process", "DESIGN.md §3 C16"),
+    chk("C16", "routerlab+e2elab", "model_checking", rtext("close of the registration channel at every point of the pub/sub and req/rep families (idle, item buffered, flush pending, one side only, rejected replier pending) followed by every pending/wake outcome of the sinks") + "; oracle: the router future completes once every sink can accept data, and every frame taken from a publisher was handed over and flushed to every healthy subscriber first", R_NOTE + "; server half (e2elab): the real server in a child process is brought into 14 states by raw peers (incl. a registration parked on a peer that grants no flow-control credit, a slow subscriber whose router holds taken messages, and - SAMPLED, 16 repetitions quick / 48 thorough - a burst of 256 concurrent first registrations), receives SIGINT and must exit with status 0 within 20 s having delivered what its routers had taken", R_TECH + " + state matrix with SIGINT on the real server process", "DESIGN.md §3 C16"),
 ]
 
 E_NOTE = "scheduling inside tokio/quinn/the kernel is NOT controlled: what is enumerated exhaustively is the property's quantified dimension (configurations, reply orders, fault points and sequences); expected arrivals are awaited with generous ceilings (10-20 s), expected absences are short quiet windows (can only under-report); trusted base: quinn, rustls, loopback UDP"
 E_TECH = "exhaustive enumeration of a finite configuration / fault-sequence matrix over the real server and client (bounded model checking of the quantified dimension; interleavings not controlled)"
 checks += [
-    chk("C03", "e2elab", "exploration", "every cell of codec x compression x batching (size, interval) x message count around the batch size x payload size is run end-to-end: real Subscriber attached via a warm-up barrier, real Publisher sends n items and finish(); the subscriber must yield exactly those items, in order, once; plus bulk cells (send_all under transport back-pressure), duplicate() taken mid-batch, the publisher's connection dropped right after finish(), an item over the frame limit refused between valid ones, and batches that exceed the frame limit as a whole", E_NOTE, E_TECH, "DESIGN.md §5 C03"),
+    chk("C03", "e2elab", "exploration", "every cell of codec x compression x batching (size, interval) x message count around the batch size x payload size is run end-to-end: real Subscriber attached via a warm-up barrier, real Publisher sends n items and finish(); the subscriber must yield exactly those items, in order, once; plus bulk cells (send_all under transport back-pressure), duplicate() taken mid-batch, the publisher's connection dropped right after finish(), an item over the frame limit refused between valid ones, items whose frame ends within a few bytes of the frame limit, and batches that exceed the frame limit as a whole", E_NOTE, E_TECH, "DESIGN.md §5 C03"),
     chk("C04", "e2elab", "exploration", "k concurrent request() calls over every set partition into requestor streams/clones, a raw scripted replier that first collects all k requests and then answers in every permutation leaving every subset unanswered, with late replies injected while a fresh request (same or re-opened stream) is in flight; every Ok must carry its own reply, every unanswered call must time out in [480 ms, 10.5 s]; plus an undecodable reply followed by further requests on the same handle / clones, reply frames without a usable request id arriving while requests are in flight, and requests that fail to be sent while clones queue behind a blocked send", E_NOTE, E_TECH, "DESIGN.md §5 C04"),
-    chk("C12", "e2elab", "fault_enumeration", "a scripted fake server cuts its connections after k items and answers re-registrations with f failures per outage, for every stream kind x k x number of successive outages x f x backoff x max attempts; per outage the re-registration frame must equal the original, the attempt count must be f+1 (max when all fail, 1 when unrecoverable) regardless of earlier outages, the stream must work again when f<max, and too-many-retries / the unrecoverable error must be reported instead of hanging; outages are produced by closing the connections, by a UDP relay dropping every packet until both sides time out, or gracefully (stream finished, then the connection closed); failing attempts fail by an error frame, by a second cut, or (repliers) by Ok followed by replier-already-bound; plus publishers with unflushed data at the cut and cloned requestors", E_NOTE, "exhaustive fault-sequence enumeration against the real client through a scripted fake server", "DESIGN.md §5 C12"),
-    chk("C15", "e2elab", "exploration", "all 4 server configurations (CA used to verify clients x CA of the presented certificate) x client trust store x client identity {trusted-CA, other-CA, self-signed, none} x {real client library, raw peer}, sequentially in a forward and a backward order within one process, with the bundled generator's certificate set as the trusted world; a registration must be answered Ok iff both certificates chain to the CA the other side was configured with; plus identities given as PEM bundles, servers started with CA files that hold no usable trust anchor (must refuse to start or certify nobody), and the generator re-run into directories that already hold a set", E_NOTE + "; cryptographic strength is out of scope", "exhaustive enumeration of the finite identity/configuration matrix", "DESIGN.md §5 C15"),
+    chk("C12", "e2elab", "fault_enumeration", "a scripted fake server cuts its connections after k items and answers re-registrations with f failures per outage, for every stream kind x k x number of successive outages x f x backoff x max attempts; per outage the re-registration frame must equal the original, the attempt count must be f+1 (max when all fail, 1 when unrecoverable) regardless of earlier outages, the stream must work again when f<max, and too-many-retries / the unrecoverable error must be reported instead of hanging; outages are produced by closing the connections, by a UDP relay dropping every packet until both sides time out, or gracefully (stream finished, then the connection closed); failing attempts fail by an error frame, by a second cut, or (repliers) by Ok followed by replier-already-bound; plus publishers with unflushed data at the cut, cloned requestors, every protocol error code as the answer to a re-registration, and a 60-attempt budget with capped exponential(10) delays", E_NOTE, "exhaustive fault-sequence enumeration against the real client through a scripted fake server", "DESIGN.md §5 C12"),
+    chk("C15", "e2elab", "exploration", "all 4 server configurations (CA used to verify clients x CA of the presented certificate) x client trust store x client identity {trusted-CA, other-CA, self-signed, none} x {real client library, raw peer}, sequentially in a forward and a backward order within one process, with the bundled generator's certificate set as the trusted world; a registration must be answered Ok iff both certificates chain to the CA the other side was configured with; plus identities given as PEM bundles, servers started with CA files that hold no usable trust anchor (must refuse to start or certify nobody), the generator re-run into directories that already hold a set, one client configuration used against two servers of one process, and a certified client after 300 refused peers", E_NOTE + "; cryptographic strength is out of scope", "exhaustive enumeration of the finite identity/configuration matrix", "DESIGN.md §5 C15"),
     chk("C17", "e2elab", "fault_enumeration", "per cell a fresh real server whose topic A is stalled by a never-reading subscriber and a flooding publisher, N further registrations on A for N around the router's queue capacity (99,100,101,102,150,...) in both orders relative to the stall, then the flooding client itself (same connection) and a fresh real client must round-trip a message on topic B and on a topic that shares its last component with A, within 20 s; the stall is produced in both the pub/sub and the request/reply pattern; plus peers that grant the server no flow-control credit on the stream they register on", E_NOTE, "exhaustive enumeration of the fault parameter (queued registrations x order) over the real server", "DESIGN.md §5 C17"),
 ]
 
